@@ -177,12 +177,129 @@ def check_inplace_write(case):
     check_lengths(f, vec2, lens2, dirs2, target, "after in-place write")
 
 
+@st.composite
+def variant_case(draw):
+    g = draw(gen.geom(ndim=(1, 3), nmax=4, exps=(-9, 2), big_offsets=False, maxcells=64, tol=False))
+    return {"g": g, "k": draw(st.integers(1, 4)), "seed": draw(st.integers(0, 2**31)),
+            "dtype": draw(st.sampled_from(["complex", "complex", "int16", "int32", "int64", "float32"])),
+            "zero_frac": draw(st.sampled_from([0.0, 0.3])),
+            "norm_dtype": draw(st.sampled_from(["float", "int", "readonly", "list", "float32"])),
+            "reuse": draw(st.sampled_from(["two-fields", "twice", "after-update"]))}
+
+
+def check_variants(case):
+    """(a) Euclidean length for complex and narrow integer components; (b) a per-cell norm array of shape n may be
+    an integer array, a read-only array or a nested list, and may be used again (it is the caller's)"""
+    import discretisedfield as df
+
+    g = case["g"]
+    n = tuple(g["n"])
+    k = case["k"]
+    mesh = gen.build_mesh(g)
+    rng = np.random.default_rng(case["seed"])
+    dt = case["dtype"]
+    tag("dtype=" + dt)
+    zero = rng.random(n) < case["zero_frac"]
+    if dt == "complex":
+        vec = rng.integers(-9, 10, size=(*n, k)) + 1j * rng.integers(-9, 10, size=(*n, k))
+        vec[zero] = 0
+        f = df.Field(mesh, nvdim=k, value=vec.copy(), dtype=np.complex128)
+    elif dt == "float32":
+        vec = rng.integers(-9, 10, size=(*n, k)).astype(np.float32)
+        vec[zero] = 0
+        f = df.Field(mesh, nvdim=k, value=vec.copy(), dtype=np.float32)
+    else:
+        # components up to 400: squares overflow int16 unless the length is computed in floating point
+        vec = rng.integers(-400, 401, size=(*n, k)).astype(dt)
+        vec[zero] = 0
+        f = df.Field(mesh, nvdim=k, value=vec.copy(), dtype=np.dtype(dt))
+    lens = np.sqrt(np.sum(np.abs(vec.astype(complex if dt == "complex" else float)) ** 2, axis=-1))
+    nf = f.norm
+    require(nf.nvdim == 1 and nf.array.shape == (*n, 1), "norm-shape")
+    if np.iscomplexobj(nf.array) and np.any(nf.array.imag != 0):
+        raise Violation("norm-not-real", f"norm of a {dt} field has an imaginary part")
+    if not np.allclose(np.real(nf.array[..., 0]), lens, rtol=1e-6 if dt == "float32" else 1e-12, atol=0):
+        i = tuple(np.argwhere(~np.isclose(np.real(nf.array[..., 0]), lens, rtol=1e-6, atol=0))[0])
+        raise Violation("norm-value-" + ("complex" if dt == "complex" else "narrow" if dt != "float32" else "f32"),
+                        f"cell {i}: norm {nf.array[i]!r} but the Euclidean length of {vec[i]} is {lens[i]!r}")
+    require(np.array_equal(f.array, vec), "getter-changed-values")
+    nz = lens > 0
+    if dt in ("complex", "float32"):
+        o = f.orientation
+        ol = np.sqrt(np.sum(np.abs(o.array) ** 2, axis=-1))
+        if (nz.any() and np.any(np.abs(ol[nz] - 1) > 1e-6)) or np.any(o.array[~nz] != 0):
+            raise Violation("orientation-not-unit-" + dt)
+        rec = (o * nf).array
+        if not np.allclose(rec, vec, rtol=1e-6 if dt == "float32" else 1e-12, atol=0):
+            raise Violation("orientation-times-norm-" + dt)
+    if dt == "complex":
+        f.norm = 2.5
+        got = np.sqrt(np.sum(np.abs(f.array) ** 2, axis=-1))
+        if not np.allclose(got, np.where(nz, 2.5, 0.0), rtol=1e-12, atol=0):
+            raise Violation("length-after-setting-norm-complex", f"{got.ravel()[:4]}")
+        # direction (phase included) unchanged: new = old * positive real factor
+        sel = nz
+        if sel.any():
+            ratio = f.array[sel] / np.where(vec[sel] == 0, 1, vec[sel])
+            ratio = ratio[vec[sel] != 0]
+            if ratio.size and (np.any(np.abs(ratio.imag) > 1e-12 * np.abs(ratio)) or np.any(ratio.real <= 0)):
+                raise Violation("direction-changed-complex")
+    # ---- (b) the caller's per-cell norm array
+    vals = rng.integers(1, 9, size=n)
+    nd_ = case["norm_dtype"]
+    tag("norm-array=" + nd_)
+    tag("reuse=" + case["reuse"])
+    if nd_ == "float":
+        spec = vals.astype(float) * 0.5
+    elif nd_ == "float32":
+        spec = (vals * 0.5).astype(np.float32)
+    elif nd_ == "int":
+        spec = vals.astype(np.int64)
+    elif nd_ == "readonly":
+        spec = vals.astype(float)
+        spec.setflags(write=False)
+    else:
+        spec = vals.tolist()
+    target = np.asarray(spec, dtype=float)
+    keep = np.array(spec, dtype=float).copy()
+
+    def real_field(shift, scale):
+        r = np.random.default_rng(case["seed"] + shift)
+        v = r.normal(size=(*n, k)) * scale
+        v[r.random(n) < case["zero_frac"]] = 0.0
+        return v
+
+    v1 = real_field(1, 3.0)
+    v2 = real_field(2, 0.01)
+    f1 = df.Field(mesh, nvdim=k, value=v1.copy())
+    f1.norm = spec
+    check_lengths(f1, v1, np.linalg.norm(v1, axis=-1), v1 / np.where(np.linalg.norm(v1, axis=-1, keepdims=True) == 0, 1,
+                                                                     np.linalg.norm(v1, axis=-1, keepdims=True)),
+                  target, f"per-cell {nd_} norm, first use")
+    if not np.array_equal(np.asarray(spec, dtype=float), keep):
+        raise Violation("norm-argument-modified", f"the caller's {nd_} norm array was changed by the setter")
+    if case["reuse"] == "two-fields":
+        f2 = df.Field(mesh, nvdim=k, value=v2.copy(), norm=spec)
+    elif case["reuse"] == "twice":
+        f2 = f1
+        f2.norm = spec
+        v2 = v1
+    else:
+        f2 = f1
+        f2.update_field_values(v2.copy())
+        f2.norm = spec
+    l2 = np.linalg.norm(v2, axis=-1)
+    check_lengths(f2, v2, l2, v2 / np.where(l2[..., None] == 0, 1, l2[..., None]), target,
+                  f"per-cell {nd_} norm, second use ({case['reuse']})")
+
+
 def nontrivial(case):
     return case["zero_frac"] > 0 and len(set(case["exps"])) >= 2
 
 
 SUBS = [
     Sub("norm", check_norm, norm_case(), nontrivial=nontrivial, quick=800, thorough=5000),
+    Sub("variants", check_variants, variant_case(), quick=400, thorough=3000),
     Sub("inplace-write", check_inplace_write, norm_case(), nontrivial=nontrivial, quick=300, thorough=2000),
 ]
 
